@@ -48,6 +48,10 @@ EXTRA = {  # scenarios beyond the model variants: more extensions to strip, othe
     "x-frag12": dict(ver="12", helloVerify=False, emsC=2, emsS=2, mtu=200, **NOCID),
     "x-chacha12": dict(ver="12", helloVerify=True, emsC=2, emsS=2, suite="TLS_ECDHE_ECDSA_WITH_CHACHA20_POLY1305_SHA256", **NOCID),
     "x-cbc12": dict(ver="12", helloVerify=False, emsC=2, emsS=2, suite="TLS_ECDHE_ECDSA_WITH_AES_256_CBC_SHA", **NOCID),
+    # steerable parameters behind a cookie exchange: the first ClientHello is outside the Finished hash, so nothing in it
+    # may decide the outcome (extended master secret on request, ALPN, two groups in opposite preference, SRTP, CIDs)
+    "x-rich12hv": dict(ver="12", helloVerify=True, emsC=0, emsS=0, cidC=4, cidS=8, srtpC=[1, 2], srtpS=[2, 1], alpnC=["a", "b"], alpnS=["b", "a"],
+                       curvesC=[29, 23], curvesS=[23, 29]),
     "x-rich13": dict(ver="13", helloVerify=True, curvesC=[29], curvesS=[29], cidC=4, cidS=4, srtpC=[1], srtpS=[1]),
 }
 OUTSIDE = {"12": {"CH1", "HVR"}, "13": set()}   # RFC 6347 4.2.1: not part of the DTLS 1.2 Finished hash
@@ -110,6 +114,7 @@ def run(chk):
         for v, res in ex.map(mc, vs):
             chk.add_tlc("mc." + v, res)
     vlib.tlc_expect_violation(MODULE, "Transcript.12cert.nocheck.cfg", "TamperNoCompletion (server without verify_data check)", timeout=300, workers=2)
+    vlib.tlc_expect_violation(MODULE, "Transcript.12certhv.negch1.cfg", "NoSteering (server negotiating from the first ClientHello)", timeout=300, workers=2)
     vlib.tlc_expect_violation(MODULE, "Transcript.12certhv.hvrcovered.cfg", "HvrCoveredToo (cookie exchange is outside the Finished hash)", timeout=300, workers=2)
 
     # (B) Tamper edges -> concrete cases
@@ -134,14 +139,17 @@ def run(chk):
     if not chk.quick:
         scens.update(EXTRA)
     else:
-        scens.update({k: EXTRA[k] for k in ("x-rich12", "x-rich13", "x-frag12")})
+        scens.update({k: EXTRA[k] for k in ("x-rich12", "x-rich12hv", "x-rich13", "x-frag12")})
     names = sorted(scens)
     probes = run_cases(binary, [{"scen": scens[n], "name": n, "probe": True} for n in names], "probe")
-    infos = {}
+    infos, control = {}, {}
     for n, r in zip(names, probes):
         if r.get("lab") or r.get("panic") or not (r["cest"] and r["sest"]):
             raise vlib.Inconclusive("honest control of scenario %s did not complete: %s" % (n, {k: r.get(k) for k in ("lab", "panic", "cerr", "serr")}))
         infos[n] = {m["name"]: m for m in r["msgs"]}
+        control[n] = (r.get("cneg"), r.get("sneg"))
+        if not control[n][0] or not control[n][1]:
+            raise vlib.Inconclusive("honest control of scenario %s reports no negotiated outputs" % n)
     nbits = 3 if chk.quick else 24
     cases, instantiated = [], 0
     for n in names:
@@ -184,6 +192,14 @@ def run(chk):
         if not done:
             continue
         if c["msg"] in OUTSIDE[c["_ver"]]:
+            # outside the Finished hash by design: completion as such is not judged, but the altered message must not have
+            # decided anything ("an on-path attacker cannot downgrade or steer any negotiated parameter")
+            got = (r.get("cneg") if r["cest"] else control[c["_v"]][0], r.get("sneg") if r["sest"] else control[c["_v"]][1])
+            if got != control[c["_v"]]:
+                chk.violation({"kind": "steered-by-message-outside-transcript", "variant": c["_v"], "msg": c["msg"], "mut": c["mut"],
+                               "completed": done, "negotiated": list(got), "control": list(control[c["_v"]]),
+                               "case": {k: v for k, v in c.items() if not k.startswith("_")}})
+                continue
             info_completions += 1
             if info_completions <= 3:
                 chk.note("info: %s completed after an altered %s (outside the DTLS 1.2 Finished hash, RFC 6347 4.2.1): %s" % (done, c["msg"], c["name"]))
@@ -203,7 +219,7 @@ def run(chk):
     chk.coverage["rule"] = ("every Tamper(message, field kind) edge of Transcript.tla per variant x concrete mutators (seeded bit positions in the "
                             "field region, first/last bit, codec-level rewrites of the hellos: suite list, extensions, session id, version, "
                             "random, suite swap); distinct = scenario/message/mutator actually applied on the wire")
-    chk.assumptions += ["the first ClientHello and HelloVerifyRequest of DTLS 1.2 are outside the Finished hash (RFC 6347 4.2.1): informational only",
+    chk.assumptions += ["the first ClientHello and HelloVerifyRequest of DTLS 1.2 are outside the Finished hash (RFC 6347 4.2.1): completion after altering them is by design, but the negotiated outputs of both sides (version, suite, ALPN, SRTP, extended master secret, group, CID lengths, peer chain length) must equal those of the honest control",
                         "every copy of the target message is altered in the same way (a discarded altered copy followed by a genuine retransmission is loss, not tampering)",
                         "protected handshake messages (Finished, DTLS 1.3 after ServerHello) are record forgeries and belong to C05"]
 
